@@ -15,7 +15,7 @@ import kdrv
 from kdrv import enums, OT, AT
 from vlib import coqprint as cp
 
-HEADER = ('From PK Require Import Locate.Locate.\nFrom Coq Require Import List ZArith String.\n'
+HEADER = ('From PK Require Import Locate.Locate.\nFrom Coq Require Import ZArith String List.\n'
           'Import ListNotations.\nOpen Scope Z_scope.\nOpen Scope string_scope.\n')
 
 LOCATE = enums.Operation.LOCATE
@@ -119,7 +119,7 @@ def gen_plan(rng, n, epoch=False):
     for i in range(n):
         t = rng.choice(['SYMMETRIC_KEY'] * 3 + ['PUBLIC_KEY', 'PRIVATE_KEY', 'SPLIT_KEY', 'CERTIFICATE', 'CERTIFICATE', 'SECRET_DATA', 'OPAQUE_DATA', 'KEY_PAIR'])
         o = {'type': t, 'owner': rng.choice(USERS[:2] if rng.random() < 0.8 else USERS),
-             'policy': rng.choice([None, 'default', 'default', 'open', 'open', 'team', 'team', 'partial', 'closed', 'public', 'nope']),
+             'policy': rng.choice([None, 'default', 'default', 'open', 'open', 'open', 'team', 'team', 'team', 'partial', 'partial', 'closed', 'public', 'nope']),
              'names': [[s, rng.choice(['UNINTERPRETED_TEXT_STRING'] * 3 + ['URI'])] for s in rng.sample(name_pool, rng.choice([0, 0, 1, 1, 2]))],
              'groups': rng.sample(group_pool, rng.choice([0, 0, 1, 2])),
              'asi': [list(x) for x in rng.sample(asi_pool, rng.choice([0, 0, 1, 2]))],
@@ -418,17 +418,71 @@ def gen_filter(rng, kind, store):
     raise KeyError(kind)
 
 
-def gen_filters(rng, store, allow_other=True):
+def gen_filter_matching(rng, kind, o):
+    """A filter of this kind that object row `o` satisfies (None when there is none)."""
+    tname = OT(o['type']).name
+    if kind == 'name':
+        return ['name', rng.choice(o['names']), 'UNINTERPRETED_TEXT_STRING'] if o['names'] else None
+    if kind == 'state':
+        return ['state', enums.State(o['state']).name] if tname != 'OPAQUE_DATA' else None
+    if kind == 'otype':
+        return ['otype', tname]
+    if kind == 'alg':
+        return ['alg', enums.CryptographicAlgorithm(o['alg']).name] if o['alg'] is not None else None
+    if kind == 'len':
+        return ['len', o['len']] if o['len'] is not None else None
+    if kind == 'mask':
+        if tname == 'OPAQUE_DATA':
+            return None
+        have = [m.name for m in MASKS if o['mask'] & m.value]
+        return ['mask', sorted(rng.sample(have, rng.randint(0, min(3, len(have)))))]
+    if kind == 'policy':
+        return ['policy', o['policy']] if o['policy'] else None
+    if kind == 'group':
+        return ['group', rng.choice(o['groups'])] if o['groups'] else None
+    if kind == 'asi':
+        return ['asi'] + list(rng.choice(o['asi'])) if o['asi'] else None
+    if kind == 'certtype':
+        return ['certtype', enums.CertificateType(o['certtype']).name] if tname == 'CERTIFICATE' else None
+    if kind == 'uid':
+        return ['uid', str(o['uid'])]
+    if kind == 'sensitive':
+        return ['sensitive', o['sensitive']]
+    if kind == 'date':
+        return ['date', o['idate']]
+    return None
+
+
+def gen_filters(rng, store, req):
     n = rng.choice([0, 1, 1, 1, 2, 2, 2, 3, 3, 4])
-    kinds = list(FILTER_KINDS) + ['date', 'date', 'otype'] + (['other'] if allow_other else [])
-    fs = [gen_filter(rng, rng.choice(kinds), store) for _ in range(n)]
+    kinds = list(FILTER_KINDS) + ['otype', 'other']
+    visible = [o for o in store.objs if may_locate(store.pols, req[0], req[1], o['owner'], OT(o['type']).name, o['policy'])]
+    target = rng.choice(visible) if visible and rng.random() < 0.85 else None
+    fs = []
+    for _ in range(n):
+        kind = rng.choice(kinds)
+        f = None
+        if target is not None and rng.random() < 0.92:
+            for _try in range(8):
+                f = gen_filter_matching(rng, kind, target)
+                if f is not None:
+                    break
+                kind = rng.choice(kinds)
+        fs.append(f if f is not None else gen_filter(rng, kind, store))
     r = rng.random()
-    if r < 0.10:      # explicit date range / too many dates
-        k = rng.choice([2, 2, 3])
-        fs = fs[:max(0, 4 - k)] + [gen_filter(rng, 'date', store) for _ in range(k)]
+    if r < 0.12:      # explicit date range / too many dates
+        k = rng.choice([2, 2, 2, 3])
+        ds = [gen_filter(rng, 'date', store) for _ in range(k)]
+        if target is not None and k == 2:
+            ds = [['date', target['idate'] - rng.choice([0, 1, 7])], ['date', target['idate'] + rng.choice([0, 0, 1, 7])]]
+            rng.shuffle(ds)
+        fs = fs[:max(0, 4 - k)] + ds
         rng.shuffle(fs)
-    elif r < 0.18:    # type-guarded algorithm/length filter (does not reach the certificate crash)
-        fs = [['otype', rng.choice(KEY_TYPES)], gen_filter(rng, rng.choice(['alg', 'len']), store)] + fs[:2]
+    elif r < 0.22:    # type-guarded algorithm/length filter (does not reach the certificate crash)
+        g = None
+        if target is not None and target['alg'] is not None:
+            g = [['otype', OT(target['type']).name], gen_filter_matching(rng, rng.choice(['alg', 'len']), target)]
+        fs = (g or [['otype', rng.choice(KEY_TYPES)], gen_filter(rng, rng.choice(['alg', 'len']), store)]) + fs[:2]
     return fs
 
 
@@ -638,15 +692,16 @@ def run_store(ctx, rng, idx, plan, pols, n_requests, cases, meta, defs, epoch=Fa
         if len({o['idate'] for o in store.objs}) < len(store.objs):
             ctx.count('store.with_equal_dates')
         for _ in range(n_requests):
-            req = rng.choice(REQUESTERS[:4] * 3 + REQUESTERS)
-            fs = gen_filters(rng, store)
+            req = rng.choice(REQUESTERS[:2] * 8 + REQUESTERS[2:4] * 2 + REQUESTERS[4:8] * 2 + REQUESTERS)
+            fs = gen_filters(rng, store, req)
             version = rng.choice(kdrv.VERSIONS)
-            full_obs = None
-            full_len = 0
-            for (off, mx) in slice_menu(rng, full_len) if False else [(None, None)] + slice_menu(rng, len(store.objs))[1:]:
-                obs = run_locate(store, req, fs, off, mx, version)
-                if off is None and mx is None:
-                    full_obs = obs
+            full_obs = run_locate(store, req, fs, None, None, version)
+            n_full = len(full_obs['ids']) if full_obs['ids'] is not None else len(store.objs)
+            n_vis = len([o for o in store.objs if may_locate(store.pols, req[0], req[1], o['owner'], OT(o['type']).name, o['policy'])])
+            ctx.count('full.%s' % ('failed' if full_obs['ids'] is None else 'empty' if not n_full else
+                                    'all_visible' if n_full == n_vis else 'proper_nonempty_subset_of_visible'))
+            for (off, mx) in slice_menu(rng, n_full):
+                obs = full_obs if (off is None and mx is None) else run_locate(store, req, fs, off, mx, version)
                 cases.append(case_to_coq(sname, req, fs, off, mx, obs))
                 meta.append({'store': idx, 'plan': plan, 'requester': list(req), 'filters': fs, 'offset': off, 'maximum': mx,
                              'version': list(version), 'observed': obs, 'objs': store.objs})
